@@ -80,6 +80,13 @@ def read_only_ops(proj, rng, n):
         else:
             ops.append(("Scalar(1,%s).IsValid/CreateCopy(unit=%s)" % (unit, u2),
                         lambda db, unit=unit, u2=u2, cat=cat: P.value_obj(Scalar(1.0, unit, cat).CreateCopy(unit=u2))))
+    # the whole-table queries (no quantity type / category argument), spread through the mix
+    whole = [("len(GetUnits())", lambda db: len(db.GetUnits())), ("len(GetInfos())", lambda db: len(db.GetInfos())),
+             ("GetUnitNames(first type)", lambda db: list(db.GetUnitNames(list(db.GetQuantityTypes())[0]))), ("GetQuantityTypes()", lambda db: list(db.GetQuantityTypes())),
+             ("len(GetUnits()) again", lambda db: len(db.GetUnits())), ("GetUnits(first type)", lambda db: list(db.GetUnits(list(db.GetQuantityTypes())[0]))),
+             ("len(GetCategories())", lambda db: len(list(db.IterCategories())) if hasattr(db, "IterCategories") else 0)]
+    for k_, w in enumerate(whole):
+        ops.insert((k_ * 37) % max(1, len(ops)), w)
     return ops
 
 
